@@ -20,7 +20,7 @@ class Grammar:
     # ---- simple syntactic facts --------------------------------------------------------------
     BUILTIN_MINMAX = {"SOI": (0, 0), "EOI": (0, 0), "ANY": (1, 1), "ASCII_DIGIT": (1, 1), "ASCII_NONZERO_DIGIT": (1, 1),
                       "ASCII_ALPHA": (1, 1), "ASCII_ALPHANUMERIC": (1, 1), "ASCII_HEX_DIGIT": (1, 1), "NEWLINE": (1, 2),
-                      "ASCII_ALPHA_LOWER": (1, 1), "ASCII_ALPHA_UPPER": (1, 1), "ASCII": (1, 1)}
+                      "ASCII_ALPHA_LOWER": (1, 1), "ASCII_ALPHA_UPPER": (1, 1), "ASCII": (1, 1), "ASCII_BIN_DIGIT": (1, 1), "ASCII_OCT_DIGIT": (1, 1)}
 
     def min_len(self, name, _stack=None):
         """Minimum number of characters of any sentence of rule `name` (implicit whitespace counts 0)."""
